@@ -15,6 +15,7 @@ func init() {
 			{Name: "TestCompileErrors", Rapid: true, QuickShards: 1, ThoroughShards: 2, DesignsQuick: 8, DesignsThorough: 30},
 			{Name: "TestCompileSecurity", Rapid: true, QuickShards: 1, ThoroughShards: 2, DesignsQuick: 8, DesignsThorough: 30},
 			{Name: "TestCompileNames", Rapid: true, QuickShards: 1, ThoroughShards: 2, DesignsQuick: 16, DesignsThorough: 60},
+			{Name: "TestCompileStreams", Rapid: true, QuickShards: 1, ThoroughShards: 2, DesignsQuick: 10, DesignsThorough: 60},
 			{Name: "TestCompileGRPC", Rapid: true, QuickShards: 1, ThoroughShards: 2, DesignsQuick: 12, DesignsThorough: 60},
 		},
 		Rule:      "a case = one generated design (model -> DSL call tree -> evaluated by a fresh goaeval process against the real DSL) that goa accepts; the real gen and example generators are run on it (fresh process, 120 s budget) and every Go package written is built with go build -gcflags=-e against the goa runtime packages of the tree under test. Five fixed matrix designs are always included (one single-parameter method per primitive kind x location x required/optional/defaulted and arrays of every kind; the parameter, view, defaults and gRPC matrices). Designs are drawn from eight generator profiles (names: the routes envelope outside the runtime subset with OneOf unions, Any, raw bytes in parameters and attribute names that are Go keywords, predeclared identifiers, acronyms, contain separators or non-ASCII letters, or equal identifiers the generated code declares; grpc: services served over gRPC with request metadata, nested messages, arrays, maps and aliases, built against the message code of the real protoc-gen-go run by the verifier's protoc stand-in; routes, views, request, response, errors, security: 1-3 services x 1-4 methods; all primitives, arrays, maps, inline objects, named/recursive user types, aliases, result types with views and collections, required/default/validations; path/query/header/cookie/body mappings, multiple routes, responses, tags, errors, security schemes, file servers). Designs goa rejects are counted but trivial (more than 25% rejected = inconclusive). Non-trivial = accepted design with >= 6 generator features whose feature vector was not seen before in the run. Distinct = profile + feature vector.",
